@@ -82,6 +82,8 @@ def run(ctx):
                 and isinstance(st.value, ast.Name):
             installed[st.targets[0].attr] = st.value.id
 
+    _W_FUNCS.clear()
+    _W_FUNCS.update((q, fn_) for q, fn_ in w.functions.items() if '.' not in q)
     msg_rx = re.compile(r'parse_content\((\w+)\(')
     for name in SHIMS:
         fname = '_pyltxenc2_LatexWalker_' + name
@@ -933,6 +935,9 @@ def _var_of(f, call):
     return unparse(call)
 
 
+_W_FUNCS = {}
+
+
 def _triple_ok(f, ret, nv, pv, lv, name):
     defs = {}
     for s in iter_own(f):
@@ -942,6 +947,24 @@ def _triple_ok(f, ret, nv, pv, lv, name):
                     defs.setdefault(unparse(t), []).append(unparse(v))
             else:
                 defs.setdefault(unparse(s.targets[0]), []).append(unparse(s.value))
+    # (p, l) unpacked from a module-level helper called with the node and the end position: its returning paths,
+    # parameters replaced by the arguments and locals expanded, give the definitions
+    for s in iter_own(f):
+        if isinstance(s, ast.Assign) and s.lineno < ret.lineno and isinstance(s.targets[0], ast.Tuple) and \
+                isinstance(s.value, ast.Call) and isinstance(s.value.func, ast.Name) and s.value.func.id in _W_FUNCS \
+                and [unparse(t) for t in s.targets[0].elts] == [pv, lv]:
+            h = _W_FUNCS[s.value.func.id]
+            ren = dict(zip([a.arg for a in h.args.args], s.value.args))
+            try:
+                hrs = [c for c in symex.Walker(want_returns=True).run(h) if c.kind == 'return']
+            except symex.TooManyPaths:
+                hrs = []
+            for c in hrs:
+                v = c.sub
+                if isinstance(v, ast.Tuple) and len(v.elts) == 2:
+                    a, b = [unparse(symex.subst(symex.expand(e, c.env), ren)) for e in v.elts]
+                    defs.setdefault(pv, []).append(a)
+                    defs.setdefault(lv, []).append(b.replace(a, pv) if a != 'None' else b)
     pdefs, ldefs = defs.get(pv, [pv]), defs.get(lv, [lv])
     ok_p = all(d in (nv + '.pos', 'pos', 'None', 'envnode.pos') for d in pdefs)
     if name == 'get_latex_nodes':
